@@ -91,6 +91,19 @@ func registerVerifAPI(e *Engine) {
 		}
 		return Str{B: bs}
 	})
+	// StringN(n): exactly n symbolic bytes.
+	v("StringN", func(in *Interp, fr *frame, fn *ssa.Function, a []Val) Val {
+		n := int(in.concInt(a[0]))
+		bs := make([]*smt.Term, n)
+		for i := range bs {
+			bs[i] = in.fresh("sb", smt.BV(8))
+		}
+		in.inputs = append(in.inputs, Input{Kind: "string", Bytes: bs, Label: "stringN"})
+		if n == 0 {
+			return Str{}
+		}
+		return Str{B: bs}
+	})
 	v("Assume", func(in *Interp, fr *frame, fn *ssa.Function, a []Val) Val {
 		in.Assume(a[0].(*smt.Term))
 		return nil
